@@ -336,8 +336,9 @@ func (db *ContractDB) parseFile(file, pkgPath string) error {
 					}
 					body := strings.TrimSpace(crest[strings.Index(crest, "invariant")+len("invariant"):])
 					name := ""
+					var iprops []string
 					if m := clauseHead.FindStringSubmatch(body); m != nil {
-						name, _ = splitNameProps(m[1])
+						name, iprops = splitNameProps(m[1])
 						body = body[len(m[0]):]
 					}
 					ex, err := rewriteExpr(body)
@@ -347,7 +348,7 @@ func (db *ContractDB) parseFile(file, pkgPath string) error {
 					if name == "" {
 						name = fmt.Sprintf("i%d", len(fc.Invariants[n]))
 					}
-					fc.Invariants[n] = append(fc.Invariants[n], &Clause{Kind: "invariant", Name: name, Expr: ex, Raw: body, Loop: n, Where: cwhere})
+					fc.Invariants[n] = append(fc.Invariants[n], &Clause{Kind: "invariant", Name: name, Props: iprops, Expr: ex, Raw: body, Loop: n, Where: cwhere})
 				}
 			}
 			if old, dup := db.Funcs[fc.Key]; dup {
